@@ -178,82 +178,117 @@ def r17_3(ctx):
         ctx.require(p.terminal == "return" and not [e for e in p.events if e.kind == "call"], "fanout:other-frame", "a frame other than stackStatusHandler touches listeners", func=f)
 
 
-@rule("R17.4", ["C17"], "T-PAIR", floor=8)
+@rule("R17.4", ["C17"], "T-PAIR", floor=7)
 def r17_4(ctx):
-    """Scan-style commands (_list_command): the collecting callback is registered before the command is issued
-    with no await in between, and removed on every exit - command raises, refused, completion refused, success,
-    cancellation; results are collected in arrival order between registration and the completion frame, and only
-    the completion frame completes the wait; both the command status and the completion status are tested."""
+    """Scan-style commands (_list_command), over command outcomes {accepted, refused, EzspError, timeout, cancellation} x
+    what arrives while the operation waits {item, unrelated frame, item, item, completion with status OK / not OK; or a
+    cancellation before any completion}: the collecting callback - whatever it is (closure, callable object, bound method)
+    - is registered before the command is issued with no await in between and removed on every exit; a refused command
+    raises without waiting; with an accepted command the operation returns exactly the item frames that arrived, in
+    arrival order, once the completion frame reported success, and raises when it reports failure; only the completion
+    frame ends the wait."""
+    from .util import FutureSim
+
     repo = ctx.repo
     es, sl = statuses(ctx)
     f = repo.func(f"{EZ}:EZSP._list_command")
     ctx.fn(f)
     cls = repo.cls(EZ, "EZSP")
-    models = [("self._command", Outcomes(OK([es["SUCCESS"]]), OK([es["ERR_FATAL"]]), RAISE("EzspError"), RAISE("TimeoutError"), RAISE("CancelledError"))),
-              ("await:fut", Outcomes(OK((Sym("x"), es["SUCCESS"])), OK((Sym("x"), es["ERR_FATAL"])), RAISE("CancelledError"))),
-              ("asyncio.Future", lambda px, t, a, k, fr: fut("fut")),
-              ("self.add_callback", lambda px, t, a, k, fr: Sym("cbid"))]
-    px = PX(repo, models=models, inline=same_class(stop=("remove_callback",)))
-    closures = []
+    sim = FutureSim()
+    frames = [("energyScanResultHandler", Sym("r1")), ("otherHandler", Sym("zz")), ("networkFoundHandler", Sym("r2")), ("energyScanResultHandler", Sym("r3"))]
+    state = {}
 
-    def setup():
-        return self_obj(cls, {}), {"name": "startScan", "item_frames": ["energyScanResultHandler", "networkFoundHandler"], "completion_frame": "scanCompleteHandler",
-                                   "spos": 1, "args": (), "kwargs": {}}
+    def add_cb(px_, t, a, k, fr):
+        state["cb"] = a[0] if a else None
+        state["registered"] = True
+        return Sym("cbid")
 
-    paths = px.explore(f, setup)
-    ctx.paths += len(paths)
-    ctx.anchor(len(paths) >= 6, "_list_command outcome paths")
-    for p in paths:
-        add = [e for e in p.events if e.kind == "call" and e.what == "self.add_callback"]
-        rem = [e for e in p.events if e.kind == "call" and e.what == "self.remove_callback"]
-        cmd = [e for e in p.events if e.kind == "await" and e.what == "self._command"]
-        wt = [e for e in p.events if e.kind == "await" and e.what == "fut"]
-        pid = f"[{str(cmd[0].extra)[:28] if cmd else '-'}/{str(wt[0].extra)[:30] if wt else '-'}]"
-        bad = None
-        if len(add) != 1 or len(cmd) != 1:
-            bad = f"{len(add)} registrations / {len(cmd)} commands"
-        elif p.events.index(add[0]) > p.events.index(cmd[0]):
-            bad = "the command is issued before the collecting callback is registered (early results are lost)"
-        elif len(rem) != 1 or rem[0].args[:1] != (Sym("cbid"),):
-            bad = f"callback removed {len(rem)} times on this exit ({p.terminal} {p.value if p.terminal == 'raise' else ''}): a registered callback outlives the operation"
-        elif p.events.index(rem[0]) < p.events.index(cmd[0]):
-            bad = "callback removed before the command"
-        else:
-            c_ok = cmd[0].extra == [es["SUCCESS"]]
-            if isinstance(cmd[0].extra, list) and not c_ok and (wt or p.terminal != "raise"):
-                bad = "refused command is not reported / still waits for completion"
-            elif c_ok and len(wt) != 1:
-                bad = f"{len(wt)} completion waits after an accepted command"
-            elif c_ok and isinstance(wt[0].extra, tuple) and (wt[0].extra[1].value == 0) != (p.terminal == "return"):
-                bad = f"completion status {wt[0].extra[1]!r} but the operation {p.terminal}s"
-            elif p.terminal == "return" and not (c_ok and wt and isinstance(wt[0].extra, tuple)):
-                bad = "returns normally without accepted command and completion"
-        if add and add[0].args and isinstance(add[0].args[0], Closure):
-            closures.append((p, add[0].args[0]))
-        if bad:
-            ctx.violation(f"_list_command:{bad.split('(')[0][:40]}", f"path {pid}: {bad}", func=f, trace=p.trace(20), construct=pid)
-        else:
-            ctx.ok(1, pid)
-    # the collecting callback itself
-    if not closures:
-        raise AnalysisError("_list_command registers no closure as callback")
-    p0, cb = closures[0]
-    res = cb.frame.locals.get("results")
-    if not isinstance(res, list):
-        raise AnalysisError("_list_command's result accumulator is not a list")
-    px2 = PX(repo, models=[("*.set_result", Outcomes(OK(None)))], inline=lambda g, aw: False)
-    seq = [("energyScanResultHandler", Sym("r1")), ("otherHandler", Sym("zz")), ("networkFoundHandler", Sym("r2")), ("energyScanResultHandler", Sym("r3"))]
-    del res[:]
-    completions = []
-    for name, val in seq + [("scanCompleteHandler", Sym("done"))]:
-        def entry(name=name, val=val):
-            return px2.call_function(cb, None, [name, val], {}, None)
+    def rem_cb(px_, t, a, k, fr):
+        state["registered"] = False
+        state["removed_with"] = a[0] if a else None
+        return None
 
-        for q in px2._run(entry):
-            completions += [(name, e.args) for e in q.events if e.kind == "call" and e.what.endswith(".set_result")]
-    ctx.require(res == [Sym("r1"), Sym("r2"), Sym("r3")], "collector:order", f"results collected as {res!r} from frames {[n for n, _ in seq]}; must be every item frame in arrival order", func=f)
-    ctx.require(completions == [("scanCompleteHandler", (Sym("done"),))], "collector:completion", f"completions: {completions!r}; only the completion frame completes the wait", func=f)
-    del res[:]
+    def waiter(px_, t, a, k, fr):
+        """The operation waits: meanwhile the NCP's callbacks arrive and are handed to whatever was registered."""
+        target = a[0] if a else None
+        if not (isinstance(target, Obj) and target.tag in sim.state):
+            return Outcomes(OK(Sym("awaited")))
+        mode = state["wait"]
+        if not state.get("registered") or state.get("cb") is None:
+            raise AnalysisError("_list_command waits although no callback is registered")
+        early_done = None
+        for name, val in frames:
+            px_.do_call(state["cb"], "registered_callback", [name, val], {}, fr, None, False)
+            if sim.is_done(target) and early_done is None:
+                early_done = name
+        state["early_done"] = early_done
+        if mode == "cancel":
+            return Outcomes(RAISE("CancelledError"))
+        status = es["SUCCESS"] if mode == "ok" else es["ERR_FATAL"]
+        px_.do_call(state["cb"], "registered_callback", ["scanCompleteHandler", (Sym("x"), status)], {}, fr, None, False)
+        if not sim.is_done(target):
+            state["not_completed"] = True
+            return Outcomes(RAISE("CancelledError"))  # nothing completes the wait: the caller's timeout ends it
+        return Outcomes(OK(sim.result(target)))
+
+    cmd_outs = [("accepted", OK([es["SUCCESS"]])), ("refused", OK([es["ERR_FATAL"]])), ("EzspError", RAISE("EzspError")), ("TimeoutError", RAISE("TimeoutError")),
+                ("CancelledError", RAISE("CancelledError"))]
+    n_paths = 0
+    for cname, cout in cmd_outs:
+        for wait_mode in (("ok", "bad-status", "cancel") if cname == "accepted" else ("ok",)):
+            px = PX(repo, inline=same_class(stop=()), models=sim.models() + [("self._command", Outcomes(cout)), ("self.add_callback", add_cb),
+                                                                            ("self.remove_callback", rem_cb), ("await:*", waiter)])
+
+            def setup():
+                sim.reset()
+                state.clear()
+                state["wait"] = wait_mode
+                return self_obj(cls, {}), {"name": "startScan", "item_frames": ["energyScanResultHandler", "networkFoundHandler"], "completion_frame": "scanCompleteHandler",
+                                           "spos": 1, "args": (), "kwargs": {}}
+
+            paths = px.explore(f, setup)
+            n_paths += len(paths)
+            for p in paths:
+                ctx.paths += 1
+                add = [e for e in p.events if e.kind == "call" and e.what == "self.add_callback"]
+                rem = [e for e in p.events if e.kind == "call" and e.what == "self.remove_callback"]
+                cmd = [e for e in p.events if e.kind == "await" and e.what == "self._command"]
+                waits = [e for e in p.events if e.kind == "await" and e.args and isinstance(e.args[0], Obj) and e.args[0].tag in sim.state]
+                pid = f"[{cname}/{wait_mode if cname == 'accepted' else '-'}]"
+                bad = None
+                if len(add) != 1 or len(cmd) != 1:
+                    bad = f"{len(add)} registrations / {len(cmd)} commands"
+                elif p.events.index(add[0]) > p.events.index(cmd[0]):
+                    bad = "the command is issued before the collecting callback is registered (early results are lost)"
+                elif add[0].epoch != cmd[0].epoch - 1 and add[0].epoch != cmd[0].epoch:
+                    bad = "an await separates registering the callback from issuing the command"
+                elif len(rem) != 1 or rem[0].args[:1] != (Sym("cbid"),):
+                    bad = f"callback removed {len(rem)} times on this exit ({p.terminal} {p.value if p.terminal == 'raise' else ''}): a registered callback outlives the operation"
+                elif p.events.index(rem[0]) < p.events.index(cmd[0]):
+                    bad = "callback removed before the command"
+                elif cname != "accepted":
+                    if waits or p.terminal != "raise":
+                        bad = f"command {cname}: the operation {'still waits for completion' if waits else 'does not raise'}"
+                elif len(waits) != 1:
+                    bad = f"{len(waits)} completion waits after an accepted command"
+                elif state.get("early_done"):
+                    bad = f"the wait is completed by the frame {state['early_done']}, which is not the completion frame"
+                elif wait_mode == "ok":
+                    if state.get("not_completed"):
+                        bad = "the completion frame does not end the wait"
+                    elif p.terminal != "return" or list(p.value if isinstance(p.value, (list, tuple)) else [p.value]) != [Sym("r1"), Sym("r2"), Sym("r3")]:
+                        bad = (f"accepted command, frames {[n for n, _ in frames]} then a successful completion: the operation {p.terminal}s {p.value!r}; it must "
+                               "return exactly the item frames in arrival order [r1, r2, r3]")
+                elif wait_mode == "bad-status":
+                    if p.terminal != "raise":
+                        bad = "the completion frame reports a failure but the operation returns normally"
+                elif p.terminal != "raise":
+                    bad = "cancelled while waiting but the operation returns normally"
+                if bad:
+                    ctx.violation(f"_list_command:{bad.split('(')[0][:40]}", f"path {pid}: {bad}", func=f, trace=p.trace(24), construct=pid)
+                else:
+                    ctx.ok(1, pid)
+    ctx.anchor(n_paths >= 6, "_list_command outcome paths")
 
 
 @rule("R17.5", ["C17", "C13", "C06"], "T-FUN", floor=2)
